@@ -8,6 +8,9 @@ import GoldilocksVerif.Lemmas.PosSpecL
 import GoldilocksVerif.Lemmas.PosTables
 import GoldilocksVerif.Lemmas.PosScalarF
 set_option linter.unusedSimpArgs false
+set_option linter.unnecessarySeqFocus false
+set_option linter.unusedTactic false
+set_option linter.unreachableTactic false
 set_option linter.unusedVariables false
 set_option maxRecDepth 8192
 namespace GoldilocksVerif
@@ -215,9 +218,18 @@ theorem vloop_lane (r : Nat) (x y : BitVec 64) (a0 a1 a2 : V4) (i : Fin 4) :
   have e1 : 23 * r + 11 + (4 + i.val) = 23 * r + 15 + i.val := by omega
   have e2 : 23 * r + 11 + (8 + i.val) = 23 * r + 19 + i.val := by omega
   rw [e1, e2]
-  refine ⟨?_, ?_, ?_⟩ <;>
-    simp only [Pos_hash_full_result_loop1, add_al_eq, den_add_avx, den_mult_avx, get_set1, load_avx, get_load,
-      Region.shift_apply, den_add_r, den_pow7, C, S, Nat.add_comm 60 r]
+  -- the index arithmetic of the constants (`&S[23 r + 11 + 4]` or `&Sr[11 + 4]` with `Sr = &S[23 r]` hoisted) and the operand order
+  -- of the exact lane operations are left to `ring_nf`.  The call pattern `add_avx(st, w, st)` (result aliasing the SECOND
+  -- operand) has a generated definition only when the code uses it: its equation is tried first.
+  first
+  | (have eb : ∀ c a : V4, add_avx__vVV_al_c_b c a = add_avx__vVV a c := by
+       intro c a; simp only [add_avx__vVV_al_c_b, add_avx__vVV, add_avx_a_sc_al_c_b, add_avx_a_sc]
+     refine ⟨?_, ?_, ?_⟩ <;>
+       (simp only [Pos_hash_full_result_loop1, add_al_eq, eb, den_add_avx, den_mult_avx, get_set1, load_avx, get_load,
+         Region.shift_apply, den_add_r, den_pow7, C, S, Nat.add_comm 60 r] <;> ring_nf))
+  | (refine ⟨?_, ?_, ?_⟩ <;>
+       (simp only [Pos_hash_full_result_loop1, add_al_eq, den_add_avx, den_mult_avx, get_set1, load_avx, get_load,
+         Region.shift_apply, den_add_r, den_pow7, C, S, Nat.add_comm 60 r] <;> ring_nf))
 
 theorem and_mask_lanes (a0 : V4) : (Avx2.and_si256 a0 posMask).l1 = a0.l1 ∧ (Avx2.and_si256 a0 posMask).l2 = a0.l2 ∧
     (Avx2.and_si256 a0 posMask).l3 = a0.l3 := by
